@@ -9,12 +9,21 @@
     SV    n ng {gate}* psi                      run the original queue gate by gate
     SVF   n ngroups {nQ Q.. ng {gate}*}* psi    run a fused queue (each group as ONE gate)
     RED   n ng {gate}* nT T1..T_nT psi          reduced density matrix of the final state
+    OBS   n maxq nq {kind k q1..qk}* ng {gate}* nout o1..o_nout psi
+                                                observation traces (QV/Model/FusionObs.lean) of the
+                                                original queue and of the model's fused queue; kinds:
+                                                0 gate, 1 deferred M, 2 callback, 3 collapsing M; the
+                                                gates are those of the kind-0 entries in order; the
+                                                j-th collapsing measurement of a run draws o_j
+    FLAGS nq dm hc huc nm m1..m_nm maxq nq' {kind k q1..qk}*
+                                                attributes of the fused circuit object
   gate = k nc t1..tk c1..cnc then 2^k*2^k Gaussian integers (row major), as in Driver.lean.
 -/
 import QV.Core.GI
 import QV.Model.Table
 import QV.Model.Sim
 import QV.Model.Fusion
+import QV.Model.FusionObs
 open QV
 
 structure Rd where
@@ -103,6 +112,31 @@ def fusedTable (Q : List Nat) (gs : List (MGate GI)) : Array GI :=
 def isPermOfRange (m : Nat) (ids : List Nat) : Bool :=
   ids.length == m && (List.range m).all (fun i => ids.contains i)
 
+
+/-! observation runs: the simulator keeps the state as a table (a `QSpace` whose `app` is
+`applyGate` followed by materialisation), the reduced state is `svSpace`'s. -/
+
+def tabSpace (n : Nat) : QSpace GI (Array GI) (DM GI) where
+  app := fun g s => tableOf n (applyGate g (ofTable n s))
+  smul := fun c s => s.map (fun x => c * x)
+  red := fun qs s => (svSpace GI.conj n).red qs (ofTable n s)
+
+def nReduced (log : List (Nat × Obs (Array GI) (DM GI))) : Nat :=
+  (log.filter (fun e => match e.2 with | .reduced _ _ => true | _ => false)).length
+
+def showRun (sem : Nat → OItem GI) (r : ORun (Array GI) (DM GI)) : String :=
+  let z : Lab := fun _ => false
+  let ents := r.log.map (fun e =>
+    match e.2 with
+    | .whole s => s!"C {e.1} {showGIs s}"
+    | .reduced red k =>
+      let qs := match sem e.1 with | .collapse qs => qs | _ => []
+      let d := 2 ^ qs.length
+      let entries := Array.ofFn (n := d * d) (fun i =>
+        red (Lab.withIdx z qs (i.val / d)) (Lab.withIdx z qs (i.val % d)))
+      s!"M {e.1} {k} {showGIs entries}")
+  " | ".intercalate (ents ++ [s!"F {showGIs r.st}"])
+
 def handle : P String := do
   let cmd ← nextTok
   match cmd with
@@ -176,6 +210,47 @@ def handle : P String := do
     let entries := Array.ofFn (n := d * d) (fun i =>
       red (Lab.withIdx z keep (i.val / d)) (Lab.withIdx z keep (i.val % d)))
     pure (showGIs entries)
+  | "OBS" =>
+    let n ← nextNat
+    let maxq ← nextNat
+    let queueK ← nextQueue
+    let gs ← nextGates
+    let nout ← nextNat
+    let outs ← nextNats nout
+    let ψ ← nextGIs (2 ^ n)
+    let queue := queueK.map (fun g => if g.kind == 3 then ({ g with kind := 1 } : FIn) else g)
+    let gsA := gs.toArray
+    let kinds := queueK.toArray
+    let gidx : Nat → Nat := fun i => ((queueK.take i).filter (fun g => g.kind == 0)).length
+    let dflt : MGate GI := { mat := fun i j => if i = j then 1 else 0, targets := [] }
+    let sem : Nat → OItem GI := fun i =>
+      let e := kinds.getD i default
+      if e.kind == 0 then OItem.gate (gsA.getD (gidx i) dflt)
+      else if e.kind == 2 then OItem.callback
+      else if e.kind == 3 then OItem.collapse (sortS e.qs)
+      else OItem.defer e.qs
+    let draw : List (Nat × Obs (Array GI) (DM GI)) → DM GI → Nat := fun log _ => outs.getD (nReduced log) 0
+    let nrm : DM GI → Nat → GI := fun _ _ => 1
+    let r0 : ORun (Array GI) (DM GI) := { st := ψ, log := [] }
+    let sp := tabSpace n
+    let orig := orun sp draw nrm (origItems sem queue.length) r0
+    let groups := (fuseModel n maxq queue).map (fun g => (g, groupQubits queue g))
+    let fused := orun sp draw nrm (fusedItems sem groups) r0
+    pure s!"{showRun sem orig} || {showRun sem fused}"
+  | "FLAGS" =>
+    let nq ← nextNat
+    let dm ← nextNat
+    let hc ← nextNat
+    let huc ← nextNat
+    let nm ← nextNat
+    let ms ← nextNats nm
+    let maxq ← nextNat
+    let queue ← nextQueue
+    let kw : InitKw := { nqubits := nq, density_matrix := dm == 1, wire_names := List.range nq }
+    let c0 := CircObj.init kw
+    let c : CircObj := { c0 with has_collapse := hc == 1, has_unitary_channel := huc == 1, measurements := ms, queue := (List.range queue.length).map (fun i => [i]) }
+    let f := c.fuse queue maxq
+    pure s!"nq={f.nqubits} dm={b2s f.density_matrix} hc={b2s f.has_collapse} huc={b2s f.has_unitary_channel} ms={showNats f.measurements} kwnq={f.init_kwargs.nqubits} kwdm={b2s f.init_kwargs.density_matrix} rep={b2s f.repeatedExecution} rep0={b2s c.repeatedExecution} queue={"|".intercalate (f.queue.map showNats)}"
   | "" => pure ""
   | c => pure s!"bad-op {c}"
 
